@@ -877,6 +877,7 @@ class TestNode(Runnable):
                 if (
                     worker.swarm_id != "localhost"
                     and worker.swarm_id not in picked_worker.id
+                    and "cluster" not in self.params["pool_scope"]
                 ):
                     continue
                 if self.is_flat() or picked_worker.id in self.params["name"]:
